@@ -391,7 +391,9 @@ Section Dyn.
     inv_deps : ws_deps s = [];
     inv_fresh : forall x, ~ In x (ws_visited s) -> Fresh s x /\ WFresh s x;
     inv_done : forall x, In x (ws_visited s) -> ~ In x A -> Done s x /\ WDone s x;
-    inv_A : forall a, In a A -> In a (ws_visited s) }.
+    inv_A : forall a, In a A -> In a (ws_visited s);
+    inv_nodup : forall x, is_terminal (n_type (node_of g0 x)) = false ->
+                          NoDup (fst (wv s x)) /\ Forall (fun p => NoDup (snd p)) (snd (wv s x)) }.
 
   (* nodes visited before are left alone (except, inside a node's own loop, that node) *)
   Definition Frame (ex : option str) (s s' : wstate) : Prop :=
@@ -423,9 +425,10 @@ Section Dyn.
     (forall x, x <> id -> eview s' x = eview s x) ->
     map fst (eview s' id) = map fst (eview s id) ->
     (forall x, x <> id -> wv s' x = wv s x) ->
+    (is_terminal (n_type (node_of g0 id)) = false -> NoDup (fst (wv s' id)) /\ Forall (fun p => NoDup (snd p)) (snd (wv s' id))) ->
     Inv A s'.
   Proof.
-    intros HA [Sh Dp Fr Dn IA] Hv Hd Hn He Hs Hw. split.
+    intros HA [Sh Dp Fr Dn IA ND] Hv Hd Hn He Hs Hw Hnd. split.
     - intros x. destruct (Sh x) as (S1 & S2 & S3 & S4). destruct (nview_parts _ _ _ (Hn x)) as (N1 & N2 & N3 & _).
       repeat split; try congruence.
       destruct (str_eqb_spec x id) as [->|Hx]; [congruence|]. rewrite (He x Hx). exact S4.
@@ -441,6 +444,7 @@ Section Dyn.
       + split; [congruence|]. rewrite (He x H). exact D2.
       + unfold WDone. rewrite (Hw x H). exact WD.
     - intros a Ha. rewrite Hv. apply IA. exact Ha.
+    - intros x Hx. destruct (str_eqb_spec x id) as [->|Hne]; [apply Hnd; exact Hx|]. rewrite (Hw x Hne). apply ND. exact Hx.
   Qed.
 
   (* shapes of the current edges are those of the unweighted graph: rank and source *)
@@ -526,6 +530,7 @@ Section Dyn.
         * apply upd_edge_deps.
         * rewrite Vi.
           apply (map_wreplace fst (eview s1 id) i (eshape e1, W) (ev e1)); [unfold eview; apply map_nth_error; exact He1|reflexivity].
+        * intros Hnt'. rewrite Vw. apply (inv_nodup _ _ HI1 id Hnt').
       + split.
         * intros x Hx. rewrite upd_edge_visited. auto.
         * intros x Hx Hex. assert (x <> id) by congruence. destruct (F1 x Hx) as (N1 & E1' & W1); [discriminate|].
@@ -598,6 +603,16 @@ Section Dyn.
     n_label (edge_wild_to_node n e) = n_label n /\ n_weights (edge_wild_to_node n e) = n_weights n.
   Proof. unfold edge_wild_to_node. destruct (e_wild e); auto. Qed.
 
+  Lemma edge_wild_to_node_nodup n e : NoDup (n_wild n) -> NoDup (e_wild e) -> NoDup (n_wild (edge_wild_to_node n e)).
+  Proof.
+    intros Hn He. unfold edge_wild_to_node. destruct (e_wild e) as [|w ws] eqn:E; [exact Hn|].
+    cbn [n_wild with_wild]. apply merge_wild_NoDup; assumption.
+  Qed.
+  Lemma Forall_wreplace {X} (P : X -> Prop) l i x : Forall P l -> P x -> Forall P (wreplace_nth i x l).
+  Proof.
+    intros Hl Hx. revert i. induction Hl as [|y l Hy Hl IH]; intros [|i]; simpl; try constructor; auto.
+  Qed.
+
   Lemma edge_loop_spec rec_edge A id path :
     EdgeSpec rec_edge -> chain A id -> path_in (id :: A) path ->
     is_terminal (n_type (node_of g0 id)) = false ->
@@ -654,7 +669,7 @@ Section Dyn.
         assert (Vw : forall x, wv (upd_node s id (fun n => with_weights n (gs id))) x = wv s x).
         { intros x. apply wv_upd_node_keep; reflexivity. }
         split.
-        * destruct HI as [Sh Dp Fr Dn IA]. split.
+        * destruct HI as [Sh Dp Fr Dn IA ND]. split.
           -- intros x. destruct (Sh x) as (S1 & S2 & S3 & S4).
              destruct (str_eqb_spec x id) as [->|Hx].
              ++ destruct (nview_eq _ _ _ _ _ _ Vi) as (V1 & V2 & V3 & V4).
@@ -677,10 +692,11 @@ Section Dyn.
                 ** split; [congruence|]. rewrite Ve. exact D2.
                 ** unfold WDone. rewrite Vw. exact WDx.
           -- intros a Ha. apply IA. right. exact Ha.
+          -- intros x Hx. rewrite Vw. apply ND. exact Hx.
         * split; [auto|]. intros x Hx Hex. assert (x <> id) by congruence. split; [apply Vn; exact H|]. split; [apply Ve|apply Vw].
       + (* an operator of unknown kind: nothing stored, and nothing to store *)
         split; [|apply Frame_refl].
-        destruct HI as [Sh Dp Fr Dn IA]. split; auto.
+        destruct HI as [Sh Dp Fr Dn IA ND]. split; auto.
         * intros x Hx HxA. destruct (str_eqb_spec x id) as [->|Hne].
           -- split; [|exact WD]. split; [|exact Hall]. rewrite Hw. rewrite <- HW. symmetry. exact HW0.
           -- apply Dn; [exact Hx|]. intros [E|E]; [congruence|contradiction].
@@ -710,15 +726,21 @@ Section Dyn.
         assert (V1 : ws_visited s1 = ws_visited s /\ ws_deps s1 = ws_deps s /\
                      (forall x, nview s1 x = nview s x /\ eview s1 x = eview s x) /\
                      (forall x, x <> id -> wv s1 x = wv s x) /\ snd (wv s1 id) = snd (wv s id) /\
-                     (forall T, In T (fst (wv s1 id)) <-> In T (fst (wv s id)) \/ In T (e_wild e1))).
-        { unfold s1. destruct (ntype_eqb tt NWildcard) eqn:Wc.
+                     (forall T, In T (fst (wv s1 id)) <-> In T (fst (wv s id)) \/ In T (e_wild e1)) /\
+                     NoDup (e_wild e1) /\ NoDup (fst (wv s1 id))).
+        { assert (ND0 := proj1 (inv_nodup _ _ HI id Hnt)).
+          assert (NDe : NoDup (e_wild e1)).
+          { unfold e1. destruct (ntype_eqb tt NWildcard); [|rewrite Hewild; constructor].
+            unfold add_wild_to_edge. cbn [e_wild edge_with_wild]. apply add_unique_NoDup. rewrite Hewild. constructor. }
+          unfold s1. destruct (ntype_eqb tt NWildcard) eqn:Wc.
           - split; [reflexivity|]. split; [reflexivity|]. split; [apply nodefn_views; intros n; apply edge_wild_to_node_fn|].
             split; [intros x Hx; apply wv_upd_node_other; [intros n; apply edge_wild_to_node_fn|exact Hx]|].
             rewrite wv_upd_node_at by (try exact Hhas; intros n; apply edge_wild_to_node_fn). cbn [fst snd].
-            split; [reflexivity|]. intros T. apply edge_wild_to_node_in.
+            split; [reflexivity|]. split; [intros T; apply edge_wild_to_node_in|]. split; [exact NDe|].
+            apply edge_wild_to_node_nodup; [exact ND0|exact NDe].
           - split; [reflexivity|]. split; [reflexivity|]. split; [auto|]. split; [auto|]. split; [reflexivity|].
-            intros T. unfold e1. rewrite Hewild. simpl. tauto. }
-        destruct V1 as (Vv & Vd & Vw & Vwo & Vws & Vwn).
+            split; [intros T; unfold e1; rewrite Hewild; simpl; tauto|]. split; [exact NDe|exact ND0]. }
+        destruct V1 as (Vv & Vd & Vw & Vwo & Vws & Vwn & NDe & NDn).
         assert (He1 : nth_error (es s1 id) i = Some e).
         { unfold s1. destruct (ntype_eqb tt NWildcard); [|exact He]. rewrite es_upd_node. exact He. }
         assert (Esh : eshape e1 = eshape e) by (unfold e1; destruct (ntype_eqb tt NWildcard); reflexivity).
@@ -741,7 +763,9 @@ Section Dyn.
           - intros x Hx. rewrite (Ue x Hx). apply Vw.
           - rewrite Ui. destruct (Vw id) as [_ ->].
             apply (map_wreplace fst (eview s id) i (eshape e, [(label, 1)]) (ev e)); [unfold eview; apply map_nth_error; exact He|reflexivity].
-          - intros x Hx. rewrite wv_upd_edge_other by exact Hx. apply Vwo. exact Hx. }
+          - intros x Hx. rewrite wv_upd_edge_other by exact Hx. apply Vwo. exact Hx.
+          - intros _. rewrite (wv_upd_edge_at s1 id i e _ He1). cbn [fst snd]. split; [exact NDn|].
+            apply Forall_wreplace; [rewrite Vws; apply (inv_nodup _ _ HI id Hnt)|exact NDe]. }
         assert (Hpr2 : progress id (S i) s2).
         { apply (progress_step id i s s2 e [(label, 1)]); auto.
           rewrite Es2, Ui. destruct (Vw id) as [_ ->]. reflexivity. }
@@ -821,7 +845,13 @@ Section Dyn.
           - left; reflexivity.
           - intros x. apply V13.
           - intros x _. apply V13.
-          - destruct (V13 id) as [_ ->]. reflexivity. }
+          - destruct (V13 id) as [_ ->]. reflexivity.
+          - intros _. rewrite W3. cbn [fst snd].
+            assert (NDX : NoDup X) by (apply (inv_nodup _ _ HI1 (e_to e) Tt)).
+            split.
+            + apply edge_wild_to_node_nodup; [|rewrite Ew2; exact NDX].
+              change (n_wild (nd s2 id)) with (fst (wv s2 id)). rewrite W2. cbn [fst]. rewrite Wid. apply (inv_nodup _ _ HI id Hnt).
+            + apply Forall_wreplace; [rewrite Wid; apply (inv_nodup _ _ HI id Hnt)|exact NDX]. }
         assert (Hpr3 : progress id (S i) s3).
         { apply (progress_step id i s s3 e (ew (eshape e))); auto. destruct (V13 id) as [_ ->]. exact Eid. }
         assert (Hwp3 : wprogress id (S i) s3).
@@ -859,7 +889,7 @@ Section Dyn.
     { intros Hin. apply mem_str_in in Hin. congruence. }
     set (s1 := mark_visited s id) in H.
     assert (HI1 : Inv (id :: A) s1).
-    { destruct HI as [Sh Dp Fr Dn IA]. split.
+    { destruct HI as [Sh Dp Fr Dn IA ND]. split; [| | | | |exact ND].
       - exact Sh.
       - exact Dp.
       - intros x Hx. apply Fr. intros Hin. apply Hx. unfold s1, mark_visited. cbn [ws_visited]. apply in_or_app. left. exact Hin.
@@ -944,7 +974,10 @@ Proof.
       + split; [intros Hnt; apply (Uw y Hnt)|]. apply Forall_forall. intros p Hp. unfold wv in Hp. cbn [snd] in Hp.
         apply in_map_iff in Hp. destruct Hp as [e [<- He]]. cbn [snd ewv]. apply (Uew y). exact He.
     - intros y [].
-    - intros a []. }
+    - intros a [].
+    - intros y Hnt. unfold wv. cbn [fst snd]. split; [change (nd s0 y) with (node_of g0 y); rewrite (Uw y Hnt); constructor|].
+      apply Forall_forall. intros p Hp. apply in_map_iff in Hp. destruct Hp as [e [<- He]]. cbn [snd ewv].
+      rewrite (Uew y e He). constructor. }
   destruct (assign_loop_spec g0 rank Hr Ht _ order s0 s' HI0 E) as (HI' & _ & Hreach).
   exists s'. auto.
 Qed.
@@ -996,4 +1029,17 @@ Proof.
   split.
   - intros T. rewrite <- (wsx_reaches g0 rank Hr (S (rank x)) x T) by lia. apply W1.
   - intros e He T. rewrite Forall_forall in W2. apply (W2 (ewv e)). unfold wv. cbn [snd]. apply in_map. exact He.
+Qed.
+
+(* ... and holds none of them twice; neither do the lists of the edges *)
+Theorem dag_wildcards_nodup g0 rank order g' :
+  ranked_by g0 rank -> terminals_not_placeholders g0 -> unweighted g0 ->
+  assign_weights order g0 = Ok g' ->
+  forall x, is_terminal (n_type (node_of g0 x)) = false ->
+    NoDup (n_wild (node_of g' x)) /\ (forall e, In e (edges_from g' x) -> NoDup (e_wild e)).
+Proof.
+  intros Hr Ht Hu H x Hnt.
+  destruct (dag_invariant g0 rank order g' Hr Ht Hu H) as (s' & <- & HI' & _).
+  destruct (inv_nodup _ _ _ _ HI' x Hnt) as [N1 N2]. split; [exact N1|].
+  intros e He. rewrite Forall_forall in N2. apply (N2 (ewv e)). unfold wv. cbn [snd]. apply in_map. exact He.
 Qed.
